@@ -119,8 +119,8 @@ def rle : List Nat → List (Nat × Nat)
 
 def commaJoin (l : List String) : String := if l.isEmpty then "-" else ",".intercalate l
 
-def obsSketch (s : Sketch ρ) (acc : Acc) : String :=
-  let w := itWalk s.compactors s.numRetained (itBegin s.compactors)
+def obsSketch (fl : Flags) (s : Sketch ρ) (acc : Acc) : String :=
+  let w := itWalkF fl s.compactors s.numRetained (itBeginF fl s.compactors)
   let pairs := w.1
   let ws := pairs.map (fun p => match p with | some (_, w) => w | none => 0)
   let l0 := pairs.filterMap (fun p => match p with | some (x, 1) => some (toString x) | _ => none)
@@ -177,7 +177,7 @@ structure DState (ρ : Type) where
 
 def parseCoins (s : String) : List Bool := s.toList.filterMap (fun c => if c = '0' then some false else if c = '1' then some true else none)
 
-def stepLine (T : Tun) (F : SecFns ρ) (R : RseConsts) (d : DState ρ) (w : List String) : DState ρ × String :=
+def stepLine (T : Tun) (F : SecFns ρ) (R : RseConsts) (fl : Flags) (d : DState ρ) (w : List String) : DState ρ × String :=
   let bad := (d, "bad-op")
   match w with
   | ["coins", bits] => (let u := d.acc.used; let b := parseCoins bits
@@ -187,7 +187,7 @@ def stepLine (T : Tun) (F : SecFns ρ) (R : RseConsts) (d : DState ρ) (w : List
     | some id, some k =>
       let r := stepOp T F d.st d.acc (.new id k (hra == "1"))
       match r.1.get id with
-      | some s => ({ st := r.1, acc := r.2 }, obsSketch s r.2)
+      | some s => ({ st := r.1, acc := r.2 }, obsSketch fl s r.2)
       | none => bad
     | _, _ => bad
   | ["upd", id, x] =>
@@ -197,11 +197,11 @@ def stepLine (T : Tun) (F : SecFns ρ) (R : RseConsts) (d : DState ρ) (w : List
       | none => (d, "throw")
       | some s0 =>
         match xo with
-        | none => (d, obsSketch s0 d.acc)      -- NaN: ignored by check_update_item
+        | none => (d, obsSketch fl s0 d.acc)      -- NaN: ignored by check_update_item
         | some x =>
           let r := stepOp T F d.st d.acc (.upd id x)
           match r.1.get id with
-          | some s => ({ st := r.1, acc := r.2 }, if r.2.throws then "throw" else obsSketch s r.2)
+          | some s => ({ st := r.1, acc := r.2 }, if r.2.throws then "throw" else obsSketch fl s r.2)
           | none => bad
     | _, _ => bad
   | [mg, i, j] =>
@@ -213,12 +213,12 @@ def stepLine (T : Tun) (F : SecFns ρ) (R : RseConsts) (d : DState ρ) (w : List
           if a.hra != b.hra then (d, "throw") else
           let r := stepOp T F d.st d.acc (.merge i j)
           match r.1.get i with
-          | some s => ({ st := r.1, acc := r.2 }, if r.2.throws then "throw" else obsSketch s r.2)
+          | some s => ({ st := r.1, acc := r.2 }, if r.2.throws then "throw" else obsSketch fl s r.2)
           | none => bad
         | _, _ => (d, "throw")
       else if mg == "copy" then
         match d.st.get i with
-        | some s => ({ d with st := d.st.set j s }, obsSketch s d.acc)
+        | some s => ({ d with st := d.st.set j s }, obsSketch fl s d.acc)
         | none => (d, "throw")
       else bad
     | _, _ => bad
@@ -249,10 +249,11 @@ def stepLine (T : Tun) (F : SecFns ρ) (R : RseConsts) (d : DState ρ) (w : List
     | some id, some rk =>
       match d.st.get id with
       | some s =>
-        if s.n = 0 then (d, "throw") else
-        if rk < 0.0 || rk > 1.0 then (d, "throw") else
-        let r := stepOp T F d.st d.acc (.viewq id)
-        ({ d with st := r.1 }, s!"Q | {optStr (SortedView.getQuantile s.sortedView rk (incl == "1"))}")
+        match s.getQuantileF fl rk (incl == "1") with
+        | none => (d, "throw")
+        | some q =>
+          let r := stepOp T F d.st d.acc (.viewq id)
+          ({ d with st := r.1 }, s!"Q | {optStr q}")
       | none => (d, "throw")
     | _, _ => bad
   | "cdf" :: id :: incl :: pts =>
